@@ -214,22 +214,25 @@ def keyNodeOf (ps : List (Node × Node)) (name : String) : Option Node :=
 
 def dashed (s : String) : String := replaceChar '_' '-' s
 
+/-- try one spelling of an attribute name: `none` if the mapping has no such key -/
+def tryAttrName (rec : Node → Ty → RecRes) (ps : List (Node × Node)) (ty : Ty) (name : String) :
+    Option (Except Fatal (Option (List Leaf))) :=
+  if hasKey ps name then
+    some (match valuesOf ps name with
+      | [v] =>
+        (match rec v ty with
+         | .error e => .error e
+         | .ok (ts, leaves) => if ts.length == 0 then .ok (some leaves) else .ok none)
+      | _ => .error .seasoning)
+  else none
+
 /-- recognition of one attribute of an auto-recognised class: exact name first, then dashed -/
 def recAttr (rec : Node → Ty → RecRes) (n : Node) (ps : List (Node × Node)) (p : Param) :
     Except Fatal (Option (List Leaf)) :=
-  let tryName (name : String) : Option (Except Fatal (Option (List Leaf))) :=
-    if hasKey ps name then
-      some (match valuesOf ps name with
-        | [v] =>
-          (match rec v p.ty with
-           | .error e => .error e
-           | .ok (ts, leaves) => if ts.length == 0 then .ok (some leaves) else .ok none)
-        | _ => .error .seasoning)
-    else none
-  match tryName p.name with
+  match tryAttrName rec ps p.ty p.name with
   | some r => r
   | none =>
-    match tryName (dashed p.name) with
+    match tryAttrName rec ps p.ty (dashed p.name) with
     | some r => r
     | none => if p.required then .ok (some [⟨[n.mark], [p.name]⟩]) else .ok none
 
